@@ -229,6 +229,44 @@ pub fn check_seq_lines(c: &Case, ctx: &mut Ctx) -> CheckResult {
     ensure!(rec.num_seq_lines() == n, "seq_lines/num_seq_lines", "num_seq_lines() = {}, expected {}", rec.num_seq_lines(), n);
     ensure!(rec.seq_lines().count() == n, "seq_lines/count", "count() = {}, expected {}", rec.seq_lines().count(), n);
     ensure!(rec.seq_lines().last() == exp.last().cloned(), "seq_lines/last", "last() wrong");
+    // internal iteration (fold / try_fold based adaptors) must see the same items as next() / next_back()
+    let a: Vec<&[u8]> = rec.seq_lines().fold(Vec::new(), |mut v, l| {
+        v.push(l);
+        v
+    });
+    ensure!(a == exp, "seq_lines/fold", "fold() visited {:?}, expected {:?}", dbg_items(&a), dbg_items(&exp));
+    let a: Vec<&[u8]> = rec.seq_lines().rfold(Vec::new(), |mut v, l| {
+        v.push(l);
+        v
+    });
+    let b: Vec<&[u8]> = exp.iter().cloned().rev().collect();
+    ensure!(a == b, "seq_lines/rfold", "rfold() visited {:?}, expected {:?}", dbg_items(&a), dbg_items(&b));
+    let mut a: Vec<&[u8]> = Vec::new();
+    rec.seq_lines().for_each(|l| a.push(l));
+    ensure!(a == exp, "seq_lines/for_each", "for_each() visited {:?}, expected {:?}", dbg_items(&a), dbg_items(&exp));
+    let mut a: Vec<&[u8]> = Vec::new();
+    rec.seq_lines().rev().for_each(|l| a.push(l));
+    ensure!(a == b, "seq_lines/rev-for_each", "rev().for_each() visited {:?}, expected {:?}", dbg_items(&a), dbg_items(&b));
+    let total: usize = rec.seq_lines().map(|l| l.len()).sum();
+    ensure!(total == exp.iter().map(|l| l.len()).sum::<usize>(), "seq_lines/sum", "sum of line lengths = {}, expected {}", total, exp.iter().map(|l| l.len()).sum::<usize>());
+    ensure!(rec.seq_lines().max_by_key(|l| l.len()).map(|l| l.len()) == exp.iter().max_by_key(|l| l.len()).map(|l| l.len()), "seq_lines/max_by_key", "longest line differs");
+    ensure!(rec.seq_lines().min() == exp.iter().cloned().min(), "seq_lines/min", "min() differs");
+    ensure!(rec.seq_lines().position(|l| l.is_empty()) == exp.iter().position(|l| l.is_empty()), "seq_lines/position", "position(is_empty) differs");
+    ensure!(rec.seq_lines().rposition(|l| l.is_empty()) == exp.iter().rposition(|l| l.is_empty()), "seq_lines/rposition", "rposition(is_empty) differs");
+    ensure!(rec.seq_lines().all(|l| !l.contains(&b'\r') && !l.contains(&b'\n')), "seq_lines/all", "a line seen through all() contains a line terminator");
+    if let Some(last) = exp.last() {
+        ensure!(rec.seq_lines().find(|l| l == last) == exp.iter().cloned().find(|l| l == last), "seq_lines/find", "find() differs");
+        ensure!(rec.seq_lines().rfind(|l| l == last) == Some(*last), "seq_lines/rfind", "rfind() differs");
+    }
+    let a: Vec<&[u8]> = rec.seq_lines().chain(rec.seq_lines().rev()).collect();
+    let b2: Vec<&[u8]> = exp.iter().cloned().chain(exp.iter().cloned().rev()).collect();
+    ensure!(a == b2, "seq_lines/chain", "chain() differs");
+    let (ev, od): (Vec<&[u8]>, Vec<&[u8]>) = rec.seq_lines().partition(|l| l.len() % 2 == 0);
+    let (ev2, od2): (Vec<&[u8]>, Vec<&[u8]>) = exp.iter().cloned().partition(|l| l.len() % 2 == 0);
+    ensure!(ev == ev2 && od == od2, "seq_lines/partition", "partition() differs");
+    let mut pk = rec.seq_lines().peekable();
+    let first = pk.peek().cloned();
+    ensure!(first == exp.first().cloned() && pk.next() == first && pk.count() == n.saturating_sub(1), "seq_lines/peekable", "peekable() differs");
     Ok(())
 }
 
@@ -440,10 +478,26 @@ impl Prop for OtherIterators {
                 // record set iterator
                 let mut rdr = fasta::Reader::with_capacity(&c.input[..], c.cap);
                 let mut set = fasta::RecordSet::default();
-                while let Some(Ok(())) = rdr.read_record_set(&mut set) {
+                // a second set that receives every batch through clone_from(): it has held more or fewer records before
+                let mut copy = fasta::RecordSet::default();
+                let mut exact = c.pre.1 as usize % 4;
+                loop {
+                    // alternate plain and exact-count reads so that the batch sizes go up and down
+                    let r = if exact == 0 { rdr.read_record_set(&mut set) } else { rdr.read_record_set_exact(&mut set, Some(exact)) };
+                    exact = (exact * 3 + 1) % 5;
+                    match r {
+                        Some(Ok(())) => {}
+                        _ => break,
+                    }
                     let n = set.len();
                     ctx.class("record set walked");
                     walk("fasta/RecordSetIter", set.into_iter(), n, extra)?;
+                    copy.clone_from(&set);
+                    ensure!(copy.len() == n, "fasta/clone_from/len", "clone_from() of a set with {} records gives a set with len() {}", n, copy.len());
+                    walk("fasta/RecordSetIter(clone_from)", copy.into_iter(), n, extra)?;
+                    let a: Vec<Vec<u8>> = set.into_iter().map(|r| { use fasta::Record; r.head().to_vec() }).collect();
+                    let b: Vec<Vec<u8>> = copy.into_iter().map(|r| { use fasta::Record; r.head().to_vec() }).collect();
+                    ensure!(a == b, "fasta/clone_from/records-differ", "the records of the clone_from() copy differ from the original's");
                 }
                 if known {
                     let mut rdr = fasta::Reader::with_capacity(&c.input[..], c.cap);
@@ -456,10 +510,26 @@ impl Prop for OtherIterators {
             Format::Fastq => {
                 let mut rdr = fastq::Reader::with_capacity(&c.input[..], c.cap);
                 let mut set = fastq::RecordSet::default();
-                while let Some(Ok(())) = rdr.read_record_set(&mut set) {
+                // a second set that receives every batch through clone_from(): it has held more or fewer records before
+                let mut copy = fastq::RecordSet::default();
+                let mut exact = c.pre.1 as usize % 4;
+                loop {
+                    // alternate plain and exact-count reads so that the batch sizes go up and down
+                    let r = if exact == 0 { rdr.read_record_set(&mut set) } else { rdr.read_record_set_exact(&mut set, Some(exact)) };
+                    exact = (exact * 3 + 1) % 5;
+                    match r {
+                        Some(Ok(())) => {}
+                        _ => break,
+                    }
                     let n = set.len();
                     ctx.class("record set walked");
                     walk("fastq/RecordSetIter", set.into_iter(), n, extra)?;
+                    copy.clone_from(&set);
+                    ensure!(copy.len() == n, "fastq/clone_from/len", "clone_from() of a set with {} records gives a set with len() {}", n, copy.len());
+                    walk("fastq/RecordSetIter(clone_from)", copy.into_iter(), n, extra)?;
+                    let a: Vec<Vec<u8>> = set.into_iter().map(|r| { use fastq::Record; r.head().to_vec() }).collect();
+                    let b: Vec<Vec<u8>> = copy.into_iter().map(|r| { use fastq::Record; r.head().to_vec() }).collect();
+                    ensure!(a == b, "fastq/clone_from/records-differ", "the records of the clone_from() copy differ from the original's");
                 }
                 if known {
                     let mut rdr = fastq::Reader::with_capacity(&c.input[..], c.cap);
@@ -474,7 +544,7 @@ impl Prop for OtherIterators {
     }
 }
 
-pub const RULE: &str = "sub-check seq-lines: (0..8 sequence lines incl. empty ones, LF/CRLF, step list over {next, next_back, nth(k), nth_back(k)} of length 0..12 continuing past the end, skip count) -> after every step len(), size_hint and the returned item are compared with a Vec model with two indices; adaptor programs enumerate().rev(), rev(), rev().enumerate(), skip(k) (also driven past its end), nth() past the end, step_by, take, rev().skip, zip, enumerate().rev() after partial consumption, count, last are compared with the same adaptors over the model Vec. Exhaustive: all step lists of length <= 8 for 0..=5 lines. Sub-check other-iterators: RecordSetIter, RecordsIter, RecordsIntoIter of both formats walked to the end and beyond: size_hint brackets the truth after every step, None stays None; RecordsIter / RecordsIntoIter additionally created after a reader prefix (k next() calls, read_record_set_exact(k), or next() calls followed by a seek back) and driven by 0..7 steps of next() / nth(k) and then skip(a).step_by(b): every returned item (record contents or the one terminal error) and the size hint after every step are compared with the model's item list. Non-trivial = >= 2 items and >= 1 step (seq-lines) / >= 2 records (others). Distinct = hash(case).";
+pub const RULE: &str = "sub-check seq-lines: (0..8 sequence lines incl. empty ones, LF/CRLF, step list over {next, next_back, nth(k), nth_back(k)} of length 0..12 continuing past the end, skip count) -> after every step len(), size_hint and the returned item are compared with a Vec model with two indices; adaptor programs enumerate().rev(), rev(), rev().enumerate(), skip(k) (also driven past its end), nth() past the end, step_by, take, rev().skip, zip, enumerate().rev() after partial consumption, count, last, and the internally iterating ones (fold, rfold, for_each, sum, max_by_key, min, position, rposition, all, find, rfind, chain, partition, peekable) are compared with the same adaptors over the model Vec. Exhaustive: all step lists of length <= 8 for 0..=5 lines. Sub-check other-iterators: RecordSetIter, RecordsIter, RecordsIntoIter of both formats walked to the end and beyond: size_hint brackets the truth after every step, None stays None; RecordsIter / RecordsIntoIter additionally created after a reader prefix (k next() calls, read_record_set_exact(k), or next() calls followed by a seek back) and driven by 0..7 steps of next() / nth(k) and then skip(a).step_by(b): every returned item (record contents or the one terminal error) and the size hint after every step are compared with the model's item list. Non-trivial = >= 2 items and >= 1 step (seq-lines) / >= 2 records (others). Distinct = hash(case).";
 
 pub fn run(tier: Tier) -> i32 {
     let mut run = Run::new("C20", tier, "exploration");
